@@ -223,14 +223,22 @@ async fn wait(sh: &Sh, name: &str, idx: u64, lat: Option<u64>) {
     }
     let pipes: Vec<St> = sh.pipes.lock().unwrap().clone();
     let mut mid = false;
+    let mut wblocked = false;
     for p in pipes {
-        if p.lock().unwrap().mid_frame() {
+        let p = p.lock().unwrap();
+        if p.mid_frame() {
             mid = true;
+        }
+        if p.write_blocked {
+            wblocked = true;
         }
     }
     let mut w = sh.world.lock().unwrap();
     if mid {
         w.probe("service_done_while_frame_half_read");
+    }
+    if wblocked {
+        w.probe("service_done_while_write_partial");
     }
     if lat.unwrap_or(0) > 0 {
         w.fault("service_latency");
